@@ -117,6 +117,35 @@ def check_simplify(env, inst, timeout_ms=5000):
             "queried": v.queried, "t": v.t}
 
 
+def gen_boolnest(env, tier):
+    """Boolean connectives nested twice over LITERALS in both polarities (complement / duplicate relations between the
+    operands of an inner and an outer connective are what the and/or/implies/iff rewrite rules look at)."""
+    import itertools
+    from pysmt import typing as T
+    m = env.formula_manager
+    a, b, c = [m.Symbol(n, T.BOOL) for n in "abc"]
+    lits4 = [a, m.Not(a), b, m.Not(b)]
+    lits = lits4 + [m.TRUE(), m.FALSE()] + ([c, m.Not(c)] if tier == "thorough" else [])
+    ops = [("and", m.And), ("or", m.Or), ("implies", m.Implies), ("iff", m.Iff)]
+    out = []
+    for (n1, o1), (n2, o2) in itertools.product(ops, repeat=2):
+        for x, y, z in itertools.product(lits, repeat=3):
+            out.append(("%s(l,%s(l,l))" % (n1, n2), o1(x, o2(y, z))))
+            out.append(("%s(%s(l,l),l)" % (n1, n2), o1(o2(x, y), z)))
+        for (n3, o3) in ops:
+            for w, x, y, z in itertools.product(lits4, repeat=4):
+                out.append(("%s(%s(l,l),%s(l,l))" % (n1, n2, n3), o1(o2(w, x), o3(y, z))))
+    for (n2, o2) in ops[:2]:
+        for w, x, y, z in itertools.product(lits4, repeat=4):
+            out.append(("and3", m.And(w, o2(x, y), z)))
+            out.append(("or3", m.Or(w, o2(x, y), z)))
+            out.append(("ite", m.Ite(w, o2(x, y), z)))
+            out.append(("ite2", m.Ite(o2(w, x), y, z)))
+            out.append(("not-nested", m.Not(o2(w, m.Not(o2(x, m.And(y, z)))))))
+    return dedup(out)
+
+
+tv.register("tv-boolnest", gen_boolnest, check_simplify)
 tv.register("tv-l1", gen_l1, check_simplify)
 tv.register("tv-l2", gen_l2, check_simplify)
 
@@ -203,7 +232,9 @@ def run(run, only=None):
                    "algebraic constants", "BV widths other than the listed ones"]
     run.assumptions = ["z3's native operators are the SMT-LIB semantics (tr_z3.py)",
                        "definedness premise: every Int/Real divisor occurring in input or output is non-zero"]
-    fams = ["tv-l1", "tv-l2"]
+    fams = ["tv-l1", "tv-l2", "tv-boolnest"]
+    run.bounds["tv-boolnest"] = ("and/or/implies/iff nested twice (all three shapes) over the literals a, !a, b, !b, True, False "
+                                 "(+ c, !c thorough), 3-ary and/or, ite and negations over them")
     for fam in fams:
         if only and fam not in only:
             continue
